@@ -103,6 +103,10 @@ class C14(F.Spec):
                 (b"led", rng.choice([b"0", b"1"])), (b"upd", b"0"), (b"pro", b"0")]
         rng.shuffle(nums)
         fields += nums[:rng.randint(2, 6)]
+        # the margins of the other shutters: independent values, so that a check on the wrong index shows
+        for k in range(1, o["tm.n"]):
+            if rng.random() < 0.5:
+                fields.append((b"tm%d" % k, rng.choice([b"-1", b"0", b"100", b"101", b"-2", b"120", b"127", b"5", b"50", b"99", b"-100"])))
         if shape == "few":
             fields = fields[:rng.randint(1, 3)]
         rng.shuffle(fields)
@@ -180,9 +184,9 @@ class C14(F.Spec):
             elif k == "qos" and rest:
                 ops.append("qos %d %s" % (int.from_bytes(self.fld(before, "qos", 1), "little", signed=False), rh))
                 exp.append(["NUM %d" % int.from_bytes(self.fld(after, "qos", 1), "little", signed=False)])
-            elif k == "tm0" and rest:
+            elif k in ("tm0", "tm1", "tm2", "tm3") and rest and int(k[2]) < o["tm.n"]:
                 ops.append("margin %s" % rh)
-                exp.append(["NUM %d" % int.from_bytes(self.fld(after, "tm", 1), "little", signed=True)])
+                exp.append(["NUM %d" % int.from_bytes(self.fld(after, "tm")[int(k[2]):int(k[2]) + 1], "little", signed=True)])
         return "\n".join(ops) + "\n", exp
 
     def monitor(self, case, groups, rc, err):
@@ -226,9 +230,13 @@ class C14(F.Spec):
                     fs.append(F.Finding("port-wrapped-accepted", "prt=%s is outside 1..65535 but the port became %d" % (v.decode(), pt)))
             if "prt" in present and not (1 <= pt <= 65535) and pt != int.from_bytes(self.fld(before, "port"), "little", signed=True):
                 fs.append(F.Finding("port-out-of-range", "port %d" % pt))
-            tm = int.from_bytes(self.fld(after, "tm", 1), "little", signed=True)
-            if "tm0" in present and not (-1 <= tm <= 100):
-                fs.append(F.Finding("margin-out-of-range", "time margin %d" % tm))
+            for idx in range(o["tm.n"]):
+                tm = int.from_bytes(self.fld(after, "tm")[idx:idx + 1], "little", signed=True)
+                if "tm%d" % idx in present and not (-1 <= tm <= 100):
+                    fs.append(F.Finding("margin-out-of-range", "time margin %d of shutter %d" % (tm, idx)))
+                if "tm%d" % idx not in present and shape != "witness" and \
+                        self.fld(after, "tm")[idx:idx + 1] != self.fld(before, "tm")[idx:idx + 1]:
+                    fs.append(F.Finding("absent-field-changed", "tm%d not in the request but the margin of shutter %d changed" % (idx, idx)))
         return fs
 
     def extra_findings(self, tier, rng):
